@@ -327,13 +327,23 @@ def rm_phase(ctx):
     ctx.run_hypothesis(remove_cases(), check_remove, "remove", ctx.params["max_examples"], seed_extra=5)
 
 
+def fuzz_phase(ctx):
+    from vfw import fuzz
+
+    if not fuzz.available():
+        ctx.notes.append("atheris not installed next to /venv (setup.sh installs it into /verif/.deps): campaign skipped")
+        return
+    fuzz.campaign(ctx, rule_cases(), check_rule, "rule", ctx.params["runs"], [])
+
+
 def phases(tier):
     if tier == "quick":
         return [Phase("rules", hyp_phase, shards=5, params={"max_examples": 250, "budget_s": 70}),
                 Phase("remove_genes", rm_phase, shards=3, params={"max_examples": 400, "budget_s": 70})]
     return [Phase("rules", hyp_phase, shards=8, params={"max_examples": 4000, "budget_s": 500}),
             Phase("remove_genes", rm_phase, shards=4, params={"max_examples": 5000, "budget_s": 500}),
-            Phase("enum", enum_phase, shards=4, params={"max_leaves": 3, "budget_s": 520})]
+            Phase("enum", enum_phase, shards=4, params={"max_leaves": 3, "budget_s": 520}),
+            Phase("atheris", fuzz_phase, shards=4, params={"runs": 20000, "budget_s": 240, "instrument": ["cobra.core.gene"]})]
 
 
 CHECKS = {"rule": check_rule, "remove": check_remove}
